@@ -85,6 +85,11 @@ func (s *Stream) groupFieldOutputName(gf string) string {
 	if a, ok := s.config.SelectAlias[gf]; ok && a != "" {
 		return a
 	}
+	// SELECT `device` AS d ... GROUP BY `device`: the group field is the bare name, the
+	// SELECT expression keeps its back-quotes.
+	if a, ok := s.config.SelectAlias["`"+gf+"`"]; ok && a != "" {
+		return a
+	}
 	// The parser prints a GROUP BY expression without blanks ("floor(v*0.1)") and a
 	// SELECT expression with its own spacing ("floor(v * 0.1)"): compare them with
 	// the blanks outside quotes removed.
